@@ -15,7 +15,7 @@ META = {
         'to np.roots really vanishes there is its own obligation).  Path.reversed / Path.cropped run on stub segments: the '
         'result is compared piece by piece with an independent measure/adjacency oracle, including wrap-around crops of closed '
         'paths and crop points on joints.'),
-    'outside': ['Arc.reversed/cropped need the Angle domain (claimed under C04 families when built)', 'equality of lengths for real curves (C06)',
+    'outside': ['Arc pieces: reversed (same ellipse, swapped angles) and cropped (flag rule, end points) are decided; that an Arc built from those parameters traces the sub-arc is C04', 'equality of lengths for real curves (C06)',
                 'rounding in the re-located t1', 'interior crop of curves at a self-intersection point (excluded: minimiser not unique)'],
     'assumptions': ['np.roots contract: returned list contains the real root u* in [0,1] (complete roots), roots pairwise separated',
                     'Path.cropped tolerance: positions compared up to 1e-6 (np.isclose joint snapping)'],
@@ -348,6 +348,11 @@ def families(tier):
     fams = [('segment-deg%d' % d, M, 'fam_segment', {'deg': d}) for d in (1, 2, 3)]
     fams.append(('interior-crop-deg2', M, 'fam_interior_crop', {'deg': 2}))
     fams.append(('interior-crop-deg3', M, 'fam_interior_crop', {'deg': 3}))
+    # Arc.cropped / split / reversed (Angle-domain harness shared with C04)
+    for sw in (False, True):
+        fams.append(('arc-cropped-flags-sweep%d' % sw, 'vf.props.c04', 'fam_cropped_flags', {'sw': sw}))
+    for la, sw in ((False, True), (True, False)) if tier == 'quick' else ((False, False), (False, True), (True, False), (True, True)):
+        fams.append(('arc-reversed-p37-%d%d' % (la, sw), 'vf.props.c04', 'fam_reversed_cropped', {'rot': 'p37', 'la': la, 'sw': sw}))
     for n in (1, 2, 3):
         fams.append(('path-cropped-n%d' % n, M, 'fam_path_cropped', {'n': n, 'wrap': False}))
         fams.append(('path-reversed-n%d' % n, M, 'fam_path_reversed', {'n': n}))
